@@ -25,11 +25,11 @@ def cli_leg(rep, tier):
         for fi, f in enumerate(fmts):
             for gi, fl in enumerate(flagsets if tier != "quick" else flagsets[:3]):
                 if tier == "quick" and (i + fi + gi) % 3: continue
-                jobs.append((i, doc, f, fl))
+                jobs.append((i, doc, f, fl, gi))
     env = core.driver_env()
     def one(j):
-        i, doc, f, fl = j; out = []
-        sub = os.path.join(tmp, "j%d_%s_%d" % (i, f, len(fl))); os.makedirs(sub, exist_ok=True)
+        i, doc, f, fl, gi = j; out = []
+        sub = os.path.join(tmp, "j%d_%s_%d" % (i, f, gi)); os.makedirs(sub, exist_ok=True)
         inp = os.path.join(sub, "in.txt"); open(inp, "wb").write(doc)
         for mode, cmd, kw in (("stdin", [cli] + fl + ["-t", f], dict(input=doc)), ("file", [cli] + fl + ["-t", f, "-o", os.path.join(sub, "o.bin"), inp], {}), ("batch", [cli] + fl + ["-t", f, "-b", "in.txt"], {})):
             try:
